@@ -16,7 +16,8 @@ Definition get_exception_guards_three_parts : bool :=
   has "  err = CannotPickleExceptionError(repr(err))" get_exception_body &&
   has "return (type(err), err.args, err.__dict__, traceback_str)" get_exception_body.
 Definition get_exception_uses_the_pools_pickler : bool :=
-  has "pickler = dill if self.pool_params.use_dill and dill is not None else pickle" get_exception_body.
+  has "use_dill = self.pool_params.use_dill and dill is not None and (self.pool_params.start_method != 'threading')" get_exception_body &&
+  has "pickler = dill if use_dill else pickle" get_exception_body.
 Definition populate_rebuilds_args_and_state : bool :=
   match populate_exception_body with
   | [a; b; c; d; e] => String.eqb a "err = err_type.__new__(err_type)" && String.eqb b "err.args = err_args" &&
